@@ -89,6 +89,11 @@ def disjoint (a b : Row n) : Bool := (Vector.zipWith cellDisjoint a b).all id
 def restrict (μ : Row n) (vs : List Nat) : Row n :=
   Vector.ofFn (fun i : Fin n => if i.val ∈ vs then μ[i] else none)
 
+/-- `x if vars is None else x.remember(vars)` -/
+def rememberOpt (μ : Row n) : Option (List Nat) → Row n
+  | none => μ
+  | some vs => μ.restrict vs
+
 /-- `c.forget(before, _except)`: keep a binding of `c` if its variable is listed in `_except`
     or is not bound in the context `before` -/
 def forget (c before : Row n) (ex : List Nat) : Row n :=
@@ -116,14 +121,13 @@ inductive Alg
   | bgp (tps : List TP)
   /-- `lazy`: the flag `analyse` put on the Join -/
   | join (lzy : Bool) (a b : Alg)
-  /-- `p1vars` = `p1._vars` (`none` when the node was never annotated: inside EXISTS),
-      `p2vars` = `p2._vars` -/
-  | leftJoin (a b : Alg) (e : Expr) (p1vars : Option (List Nat)) (p2vars : List Nat)
+  /-- `p1vars` = `p1._vars`, `p2vars` = `p2._vars` (`none` when the node was never annotated: inside EXISTS) -/
+  | leftJoin (a b : Alg) (e : Expr) (p1vars : Option (List Nat)) (p2vars : Option (List Nat))
   /-- `vars` = the Filter's `_vars`, `noIso` = `no_isolated_scope` -/
   | filter (e : Expr) (p : Alg) (vars : List Nat) (noIso : Bool)
   | union (a b : Alg)
-  /-- `p1vars` = `p1._vars` -/
-  | minus (a b : Alg) (p1vars : List Nat)
+  /-- `p1vars` = `p1._vars`, `p2vars` = `p2._vars` -/
+  | minus (a b : Alg) (p1vars p2vars : Option (List Nat))
   /-- `vars` = the Extend's `_vars` -/
   | extend (p : Alg) (v : Nat) (e : Expr) (vars : List Nat)
   | graph (g : Pos) (p : Alg)
@@ -132,6 +136,11 @@ inductive Alg
   /-- `ToMultiSet(Project(p, PV))`: a sub-select -/
   | project (p : Alg) (pv : List Nat)
 end
+
+/-- `own_vars` of `evalLeftJoin`: `p1._vars | p2._vars`, or `None` (= nothing is excepted) if one is missing -/
+def ownVars : Option (List Nat) → Option (List Nat) → List Nat
+  | some a, some b => a ++ b
+  | _, _ => []
 
 instance : Inhabited Alg := ⟨.bgp []⟩
 instance : Inhabited Expr := ⟨.const (.bool true)⟩
